@@ -235,6 +235,39 @@ def _strip_inert(tree: ast.Module) -> ast.Module:
     return tree
 
 
+def _terminates(body) -> bool:
+    return bool(body) and isinstance(body[-1], (ast.Return, ast.Continue, ast.Break, ast.Raise))
+
+
+def _canon_control(tree: ast.Module) -> ast.Module:
+    """two spellings of the same control flow are reduced to one, so that no rule depends on which was written:
+      if not C: B else: A            ->  if C: A else: B          (B not an elif chain)
+      if C: ...; return  else: REST  ->  if C: ...; return   REST  (the else of a branch that cannot fall through is flattened)"""
+    for node in ast.walk(tree):
+        if isinstance(node, ast.If) and node.orelse and isinstance(node.test, ast.UnaryOp) and isinstance(node.test.op, ast.Not) \
+                and not (len(node.orelse) == 1 and isinstance(node.orelse[0], ast.If)):
+            node.test, node.body, node.orelse = node.test.operand, node.orelse, node.body
+    changed = True
+    while changed:
+        changed = False
+        for node in ast.walk(tree):
+            for fld in ("body", "orelse", "finalbody"):
+                b = getattr(node, fld, None)
+                if not (isinstance(b, list) and b and isinstance(b[0], ast.stmt)):
+                    continue
+                for i, st in enumerate(b):
+                    if isinstance(st, ast.If) and st.orelse and _terminates(st.body):
+                        rest, st.orelse = st.orelse, []
+                        b[i + 1:i + 1] = rest
+                        changed = True
+                        break
+                if changed:
+                    break
+            if changed:
+                break
+    return tree
+
+
 class Program:
     def __init__(self, repo: str, overrides: Optional[Dict[str, str]] = None):
         self.repo = os.path.abspath(repo)
@@ -270,7 +303,7 @@ class Program:
                     src = self.overrides[rel] if rel in self.overrides else open(path, encoding="utf-8").read()
                     with warnings.catch_warnings():
                         warnings.simplefilter('ignore')
-                        tree = _strip_inert(ast.parse(src, filename=path))
+                        tree = _canon_control(_strip_inert(ast.parse(src, filename=path)))
                 except (SyntaxError, UnicodeDecodeError, OSError) as e:
                     raise AnalysisError(f"cannot parse {rel}: {e}")
                 h.update(rel.encode())
